@@ -145,7 +145,8 @@ def run_tlc(module, cfg, workers=8, timeout=600, env=None, simulate=None, depth=
         other.append(line)
     if keep_lines:
         r.lines = other
-    r.tail = '\n'.join(other[-60:])
+    first_err = next((i for i, l in enumerate(other) if l.startswith('Error')), None)
+    r.tail = '\n'.join((other[first_err:first_err + 25] + ['...'] if first_err is not None else []) + other[-25:])
     finished = any('Model checking completed' in l or 'Finished in' in l for l in other[-12:])
     r.ok = (rc == 0 and finished) or (r.timed_out and simulate is not None)
     if r.invariant_violated and allow_violation:
